@@ -1,11 +1,11 @@
 """props.py — per-property configuration of the correspondence runs."""
 
 TRUSTED_BASE = [
-    "Coq 8.16.1 kernel (coqc; coqchk in the thorough tier); vm_compute for finite sweeps; no native_compute",
+    "Coq 8.16.1 kernel (coqc; coqchk -o over all property files run by hand, result in /verif/COQCHK.txt: Axioms <none>); vm_compute for finite sweeps; no native_compute",
     "axioms: none (Print Assumptions under every property theorem must say 'Closed under the global context')",
     "tools/translate.py (pattern-based translation of data tables, book lines, regex literals, constants)",
     "extraction: Extraction Language OCaml, ExtrOcamlBasic (bool, option, unit, list, prod, sumbool), ExtrOcamlString (ascii->char, string->char list); no Extract Constant / Extract Inductive of our own; OCaml 4.13.1",
-    "runner/driver.ml (parsing, printing, model-vs-spec comparison), harness/ (Rust, path dependency on /repo, cfg chess_verif), tools/vcheck.py (diff)",
+    "runner/driver.ml (parsing, printing, model-vs-spec comparison, validation of the moves the real game loops print), harness/ (Rust, path dependency on /repo, cfg chess_verif; its plain minimax `searchx` and its decision predicates are aids for finding a failing input, not part of any proof), tools/vcheck.py (diff)",
     "hand-written implementation model (rocq/*.v) as a rendering of src/: checked by the correspondence runs to the extent reported here",
     "spec layer rocq/Rules.v as a rendering of the FIDE Laws: validated against published perft counts",
 ]
